@@ -1,0 +1,13 @@
+//go:build verif
+// +build verif
+
+package output
+
+// VerifReset re-creates the package-level cockpit state. Only compiled with the
+// `verif` build tag: the simulator runs many worlds in one process and needs the
+// shared spinner state and the close channel to be created inside each run.
+func VerifReset() {
+	base = nil
+	closed = false
+	closeCh = make(chan bool)
+}
